@@ -87,6 +87,11 @@ var props = map[string]propSpec{
 		Rule: "rapid draws Decimals (all patterns, values around the -6/20 switch of the JSON form) for MarshalJSON: the output must match an RFC 8259 number recogniser, denote the value exactly (independent numeral evaluator), carry no superfluous digits, and round-trip directly and through encoding/json inside a struct, slice, map and pointer; NaN/Inf must give *json.UnsupportedValueError. For UnmarshalJSON: RFC 8259 numbers from a grammar (ties after the 34th digit, long digit strings, exponents in the clamp windows and beyond int16) must give the same Decimal as Parse (error when Parse reports ErrRange), directly and inside documents; null leaves the receiver untouched; JSON strings/bools/arrays/objects must be errors; arbitrary bytes and Go float syntax must not panic and, if accepted, must store what Parse gives. Non-trivial = exponent-form output or >= 20 digits (marshal), any number or non-number JSON value (unmarshal); distinct = distinct input.",
 		Assumptions: append([]string{"encoding/json is the reference for JSON validity of whole documents; byte strings that are not JSON values are outside the statement's 'non-numbers' and only the no-panic/no-wrong-value clauses apply"}, commonAssumptions...),
 	},
+	"C15": {
+		QuickShards: 8, ThoroughShards: 16,
+		Rule: "sub-check class-product enumerates completely, for each of the 36 operations in the table (arithmetic with and without mode, QuoRem, Pow, Min/Max, roots, the eight exp/log functions, rounding functions, sign/scale operations, float64 round trip), every pair of 65 operand-class representatives (NaN canonical/signed/payload/signalling/all-ones, +-Inf canonical and with garbage bits, +-0 at four exponents, +-1 in three cohorts, fractions, half-integers, odd/even/large integers): result class (NaN, +-Inf, +-0, +-finite) against the corresponding float64 operation, NaN operands propagated bit for bit, invalid-operation NaNs carrying Payload = Op(class[, class]). Sub-check special repeats this on rapid-drawn members of each class (random cohort members, payloads, garbage bits, dyadic fractions, large exact integers). Sub-check predicates: IsNaN/IsInf/IsZero/Signbit against the independent decoder on generated patterns. Non-trivial = at least one special (NaN/Inf/zero) operand or special pattern; distinct = distinct (operation, operand bits).",
+		Assumptions: append([]string{"Go's math package is the reference for special-case results (as the property states), except Min/Max with a NaN operand where the property itself says NaN"}, commonAssumptions...),
+	},
 	"C01": {
 		QuickShards: 8, ThoroughShards: 16,
 		Rule: "rapid draws operand pairs (independent; exponent gap -45..45; tie/near-tie constructor at the 34/35-digit boundary; near-cancellation across cohorts; swallowed operand up to gap 12287; zeros; overflow edge) and add/sub; every pair is evaluated under all 6 modes and under all 6 DefaultRoundingMode values against the exact integer sum rounded by ref.RoundX. Non-trivial = the exact sum is not representable (rounding decides) or the operands cancel exactly; distinct = distinct (x bits, y bits, op).",
